@@ -27,7 +27,12 @@ META = {
             "combined SETSTAT/FSETSTAT requests; each by path (SFTPClient.truncate/chmod/utime/chown) "
             "and by open handle (SFTPFile.*, file opened 'r' and 'r+'); truncate additionally through a handle "
             "opened 'r+' with a write buffer that holds an unflushed write of 1 or size+2 bytes at offset 0 "
-            "(twin: local file write, flush, os.truncate).  Oracle: os.stat (mode, size, "
+            "(twin: local file write, flush, os.truncate).  Dimension 'how the path is given' (both tiers: every "
+            "by-path and handle-r+ case of the quick grid with content size <= 4096) x {absolute path, no chdir; "
+            "relative path after SFTPClient.chdir(dir); absolute path after chdir}: the served tree then holds "
+            "three same-named files with different contents (/t, /sub/t, /sub/sub/t) of which exactly one is "
+            "named by the call; the twin tree gets the os.* call on that one file and all three files are "
+            "compared.  Oracle: os.stat (mode, size, "
             "uid, gid, integer times) and the file bytes equal the twin's.",
     "note": "runs as root on tmpfs (/dev/shm): chown to foreign ids works, mode bits judged via os.stat",
     "design_ref": "4/C31",
@@ -85,6 +90,27 @@ def cases(tier):
     return out
 
 
+# how the path of the call is given: (chdir argument or None, path given to the call, file it names).
+# The default form (no chdir, "t" in a tree with one file) is what every case above uses.
+PATH_FORMS = {
+    "absolute": (None, "/sub/t", "sub/t"),
+    "relative-after-chdir": ("/sub", "t", "sub/t"),
+    "absolute-after-chdir": ("/sub", "/t", "t"),
+}
+TREE = ["t", "sub/t", "sub/sub/t"]      # same-named files; a wrongly resolved path hits one of the others
+
+
+def pathform_cases():
+    """Every by-path / handle-r+ case of the quick grid with content size <= 4096, under each path form."""
+    out = []
+    for group, via, p in cases("quick"):
+        if via not in ("path", "handle-r+") or p["size"] > 4096:
+            continue
+        for form in PATH_FORMS:
+            out.append((group, via, dict(p, pathform=form)))
+    return out
+
+
 def prepare(path, data, mode0):
     with open(path, "wb") as f:
         f.write(data)
@@ -137,13 +163,18 @@ def apply_twin(group, p, path):
 
 def apply_sftp(group, via, p, client):
     fobj = None
+    name = "t"
+    if "pathform" in p:
+        cwd, name, _ = PATH_FORMS[p["pathform"]]
+        if cwd is not None:
+            client.chdir(cwd)
     if via == "handle-buffered-write":
-        fobj = client.open("t", "r+", BUFSIZE)
+        fobj = client.open(name, "r+", BUFSIZE)
         fobj.write(content(p["pending"], 32))
     elif via != "path":
-        fobj = client.open("t", "r+" if via == "handle-r+" else "r")
+        fobj = client.open(name, "r+" if via == "handle-r+" else "r")
     tgt = fobj if fobj is not None else client
-    args = () if fobj is not None else ("t",)
+    args = () if fobj is not None else (name,)
     try:
         if group == "size":
             tgt.truncate(*args, p["target"])
@@ -165,7 +196,7 @@ def apply_sftp(group, via, p, client):
             if "size" in st:
                 attr.st_size = st["size"]
             if fobj is None:
-                client._request(CMD_SETSTAT, client._adjust_cwd("t"), attr)
+                client._request(CMD_SETSTAT, client._adjust_cwd(name), attr)
             else:
                 client._request(CMD_FSETSTAT, fobj.handle, attr)
     finally:
@@ -185,18 +216,48 @@ def changes_something(group, p):
 
 def run_case(base, idx, case, acc):
     group, via, p = case
-    d = os.path.join(base, "c%d" % idx)
+    if "pathform" not in p:
+        return run_case_1(base, idx, case, acc)
+    # a path-form case: a failure is attributed to the path form only when the same request with
+    # the default form (relative name, no chdir, one file) passes; otherwise it is reported as that
+    tmp = core.Acc()
+    run_case_1(base, idx, case, tmp)
+    acc.evaluations += tmp.evaluations
+    acc.nontrivial |= tmp.nontrivial
+    acc.samples += tmp.samples[:max(0, acc.MAX_SAMPLES - len(acc.samples))]
+    if tmp.violations:
+        plain = core.Acc()
+        q = {k: v for k, v in p.items() if k != "pathform"}
+        run_case_1(base, "%sp" % idx, (group, via, q), plain)
+        if plain.violations:
+            acc.count("path-form cases failing with the default path form as well (reported as that)")
+        for v in (plain.violations or tmp.violations):
+            acc.violation(v["key"], v["detail"], v["replay"])
+
+
+def run_case_1(base, idx, case, acc):
+    group, via, p = case
+    d = os.path.join(base, "c%s" % idx)
     os.mkdir(d)
     served_root = os.path.join(d, "srv")
     twin_root = os.path.join(d, "twin")
     os.mkdir(served_root)
     os.mkdir(twin_root)
-    served = os.path.join(served_root, "t")
-    twin = os.path.join(twin_root, "t")
+    form = p.get("pathform")
+    if form is None:
+        tree, target = ["t"], "t"
+    else:
+        tree, target = TREE, PATH_FORMS[form][2]
+    served = os.path.join(served_root, target)
+    twin = os.path.join(twin_root, target)
     data = content(p["size"], 31)
     try:
-        prepare(served, data, p["mode0"])
-        prepare(twin, data, p["mode0"])
+        for rel in tree:
+            # the other same-named files differ in content and length, so a change that lands on them shows
+            d_rel = data if rel == target else content(p["size"] + 3 + TREE.index(rel), 33 + TREE.index(rel))
+            for root in (served_root, twin_root):
+                os.makedirs(os.path.dirname(os.path.join(root, rel)), exist_ok=True)
+                prepare(os.path.join(root, rel), d_rel, p["mode0"])
         ref_err = None
         try:
             apply_twin(group, p, twin)
@@ -216,8 +277,12 @@ def run_case(base, idx, case, acc):
         if changes_something(group, p):
             acc.nt((group, via, repr(sorted(p.items()))))
         viaKey = {"path": "by-path", "handle-buffered-write": "by-handle-after-buffered-write"}.get(via, "by-handle")
+        if form is not None:
+            viaKey += ":" + form + "-path"
         replay = {"group": group, "via": via, "p": p}
         detail = {"case": {"group": group, "via": via, "params": p}}
+        if form is not None:
+            detail["case"]["chdir"], detail["case"]["path_given"], detail["case"]["file_named"] = PATH_FORMS[form]
         if isinstance(got_err, R.NoResponse):
             acc.violation("no-response:%s:%s" % (group, viaKey), dict(detail, error=repr(got_err)), replay)
             return
@@ -247,7 +312,17 @@ def run_case(base, idx, case, acc):
                           dict(detail, first_difference_at=first, served_prefix=gbytes[:16],
                                twin_prefix=wbytes[:16], initial_prefix=data[:16]), replay)
             return
-        if idx % 61 == 0:
+        for rel in tree:
+            if rel == target:
+                continue
+            # a file the call did not name: nothing about it may have changed (the twin's was never touched)
+            o_got = snapshot(os.path.join(served_root, rel), with_times)
+            o_want = snapshot(os.path.join(twin_root, rel), with_times)
+            if o_got != o_want:
+                acc.violation("file-not-named-by-the-call-changed:%s:%s" % (group, viaKey),
+                              dict(detail, changed_file="/" + rel, served=o_got[0], twin=o_want[0]), replay)
+                return
+        if isinstance(idx, int) and idx % 61 == 0:
             acc.sample({"group": group, "via": via, "params": p, "result": got})
     finally:
         shutil.rmtree(d, ignore_errors=True)
@@ -268,15 +343,20 @@ def main(tier):
     ck = core.Check(
         PID, tier, "exploration",
         "case = (attribute group, by path | by handle opened r+ | r | r+ with an unflushed buffered write "
-        "(size group), parameters) from the stated grid; "
+        "(size group), parameters) from the stated grid, plus the path-form dimension (absolute path | relative "
+        "path after chdir | absolute path after chdir, in a tree with three same-named files) over the by-path "
+        "and handle-r+ cases of the quick grid with content size <= 4096; "
         "every case run once on fresh files; nontrivial = distinct case whose requested value differs "
         "from the file's initial value (target size != size, mode != initial mode, owner != root; "
         "times and combined requests always)",
         ["uid 0 on tmpfs", "server side = local-directory stub calling SFTPServer.set_file_attr",
          "synchronous loopback: server processes each request packet inside the client's send()"])
-    cs = list(enumerate(cases(tier)))
+    grid = cases(tier)
+    forms = pathform_cases()
+    cs = list(enumerate(grid + forms))
     ck.merge(core.pmap(enum.chunks(cs, 64), run_chunk))
-    ck.extra["bound"] = {"cases": len(cs)}
+    ck.extra["bound"] = {"cases": len(cs), "grid_cases": len(grid), "path_form_cases": len(forms),
+                         "path_forms": {k: list(v) for k, v in PATH_FORMS.items()}}
     return ck.finish()
 
 
